@@ -220,6 +220,7 @@ let ref_provider_json (ops : (int * int * (int * RZ.range) list) list) : str =
        (string_of_int v, obj (List.map (fun (q, r) -> (string_of_int q, ref_range r)) (dedup (last p v))))) (vers p)))) pkgs)
 
 let oracle (c : Sx.t) (rust : str) : (str * str) option =
+  if rust = "(harness-panic 1)" then Some ("C19", "serializing or deserializing panicked / failed where the round trip must succeed") else
   let obs = Sx.list (Sx.parse ("(" ^ rust ^ ")")) in
   let is1 f = (try Sx.int (field obs f) = 1 with _ -> false) in
   match Sx.list c with
